@@ -182,7 +182,7 @@ func (h *H) recordGroup(gi int, kind string, perGroup int) {
 	g := &Gen{R: h.rng("records", gi), rawLimbs: true}
 	be, err := h.openBackend(kind, fmt.Sprintf("rec%d", gi))
 	if err != nil {
-		res.Note("open %s: %v", kind, err)
+		res.Fatalf("open %s: %v", kind, err)
 		return
 	}
 	defer func() { be.close() }()
@@ -290,7 +290,7 @@ func (h *H) recordGroup(gi int, kind string, perGroup int) {
 			}
 			ns, err := be.reopen()
 			if err != nil {
-				res.Note("reopen %s: %v", be.name, err)
+				res.Fatalf("reopen %s: %v", be.name, err)
 				continue
 			}
 			store = ns
@@ -376,7 +376,7 @@ func (h *H) chainCase(ci int, srcNew, dstNew bool, kind string, blocks int, vers
 	g := lib.NewChainGen(r, srcNew, opt)
 	be, err := h.openBackend(kind, fmt.Sprintf("chain%d", ci))
 	if err != nil {
-		res.Note("open %s: %v", kind, err)
+		res.Fatalf("open %s: %v", kind, err)
 		return
 	}
 	defer func() { be.close() }()
@@ -391,7 +391,7 @@ func (h *H) chainCase(ci int, srcNew, dstNew bool, kind string, blocks int, vers
 		}
 		b, err := g.Next(spec)
 		if err != nil {
-			res.Note("chain generator: %v", err)
+			res.Fatalf("chain generator: %v", err)
 			return
 		}
 		cl := b.Clone()
@@ -474,7 +474,7 @@ func (h *H) chainCase(ci int, srcNew, dstNew bool, kind string, blocks int, vers
 			txs, rcs := allKindsTxs(g, g.Head().Block.ProtocolVersion, 14)
 			b, err := g.Next(&lib.BlockSpec{Txs: txs, Rcs: rcs})
 			if err != nil {
-				res.Note("chain generator: %v", err)
+				res.Fatalf("chain generator: %v", err)
 				return
 			}
 			if err := lib.StoreOn(bc, b); err != nil {
@@ -485,7 +485,7 @@ func (h *H) chainCase(ci int, srcNew, dstNew bool, kind string, blocks int, vers
 		}
 		old := recs[len(recs)-1]
 		if err := g.Revert(); err != nil {
-			res.Note("chain generator revert: %v", err)
+			res.Fatalf("chain generator revert: %v", err)
 			return
 		}
 		if err, panicked, _ := lib.Try(func() error { return bc.RevertHead() }); err != nil {
@@ -508,7 +508,7 @@ func (h *H) chainCase(ci int, srcNew, dstNew bool, kind string, blocks int, vers
 		txs, rcs := allKindsTxs(g, g.Head().Block.ProtocolVersion, 6)
 		b, err := g.Next(&lib.BlockSpec{Txs: txs, Rcs: rcs})
 		if err != nil {
-			res.Note("chain generator: %v", err)
+			res.Fatalf("chain generator: %v", err)
 			return
 		}
 		cl := b.Clone()
@@ -534,7 +534,7 @@ func (h *H) chainCase(ci int, srcNew, dstNew bool, kind string, blocks int, vers
 	if be.reopen != nil {
 		ns, err := be.reopen()
 		if err != nil {
-			res.Note("reopen %s: %v", be.name, err)
+			res.Fatalf("reopen %s: %v", be.name, err)
 			return
 		}
 		check(ns, lib.NodeOn(ns, g.Net, dstNew), "(reopened)")
